@@ -35,7 +35,7 @@ ENVS = [
 WHENS = ["2024-08-21T00:00:00Z", "2024-08-21T00:00:00", "2024-03-10T02:30:00", "2024-08-21 00:00:00", "2024-08-21", "2024-08-21T00:00:00+09:00",
          "2024-08-21T00:00:00.5-07:00", "Wed, 21 Aug 2024 00:00:00 GMT", "1724198400", "2024-11-03T01:30:00", "20240821T000000", "2024-08-21T00:00:00 PST"]
 
-STRUCTURED = {"v-overlap-s-json", "v-overlap-s-junit", "t-err-expectations-json", "pt-json-ofile", "pt-yaml-ofile", "rulegen-ofile", "fn-epoch-s-json", "fn-misc-s-yaml", "v-s-json", "v-s-yaml", "v-s-sarif", "v-s-junit", "v-printjson", "pt-json", "pt-yaml", "t-json", "t-yaml", "t-junit"}
+STRUCTURED = {"t-multi-json", "t-multi-junit", "v-overlap-s-json", "v-overlap-s-junit", "t-err-expectations-json", "pt-json-ofile", "pt-yaml-ofile", "rulegen-ofile", "fn-epoch-s-json", "fn-misc-s-yaml", "v-s-json", "v-s-yaml", "v-s-sarif", "v-s-junit", "v-printjson", "pt-json", "pt-yaml", "t-json", "t-yaml", "t-junit"}
 TIME_RE = re.compile(rb'(time="[^"]*"|"time":\s*\d+|\btime:\s*\d+)')
 ANSI = re.compile(rb"\x1b\[[0-9;]*m")
 
@@ -88,6 +88,8 @@ def modes_for(sdir):
         "v-o-yaml": ["validate"] + R + D + ["-o", "yaml"],
         "v-printjson": ["validate"] + R[:2] + D + ["-p", "-S", "none"],
         "v-console": ["validate"] + R + D,
+        "v-generic-console": ["validate"] + R + ["-d", os.path.join(sdir, "plain", "settings.json"), "-S", "all"],
+        "v-generic-console-rdir": ["validate", "-r", os.path.join(sdir, "rdir"), "-d", os.path.join(sdir, "plain", "settings.json"), "-S", "pass,fail,skip"],
         "v-console-all-verbose": ["validate"] + R + D + ["-S", "all", "-v"],
         "v-cfn": ["validate"] + R + D + ["-t", "CFNTemplate", "-S", "pass,fail,skip"],
         "pt-json": ["parse-tree", "-r", os.path.join(sdir, "r1.guard"), "-p"],
@@ -96,6 +98,10 @@ def modes_for(sdir):
         "t-yaml": ["test", "-r", os.path.join(T, "r1.guard"), "-t", os.path.join(T, "tests", "r1_tests.json"), "-o", "yaml"],
         "t-junit": ["test", "-d", T, "-o", "junit"],
         "t-console": ["test", "-d", T],
+        # several tests files for one rules file under --dir: the cases are listed in the same order every time
+        "t-multi-json": ["test", "-d", os.path.join(sdir, "tm"), "-o", "json"],
+        "t-multi-junit": ["test", "-d", os.path.join(sdir, "tm"), "-o", "junit"],
+        "t-multi-console": ["test", "-d", os.path.join(sdir, "tm")],
         "t-console-verbose": ["test", "-r", os.path.join(T, "r1.guard"), "-t", os.path.join(T, "tests", "r1_tests.json"), "-v"],
         # runs that end in an evaluation error: the message (stderr) names the rules of the file
         "v-err-unknown-rule": ["validate", "-r", os.path.join(sdir, "e1.guard")] + D,
@@ -138,6 +144,11 @@ def build_inputs(rng, sdir):
     os.makedirs(os.path.join(sdir, "t", "tests"))
     for i, d in enumerate(docs):
         open(os.path.join(sdir, "d", "d%d.json" % i), "w").write(json.dumps(d, indent=1))
+    # the same content as a plain settings document (no `Resources` map): the console then uses the generic (one line per failure) rendering
+    os.makedirs(os.path.join(sdir, "plain"))
+    pl = dict(docs[0])
+    pl["Items"] = pl.pop("Resources", {})
+    open(os.path.join(sdir, "plain", "settings.json"), "w").write(json.dumps(pl, indent=1))
     # the rulegen template: the first document plus resources whose property values (and property names) differ only in letter case, in
     # type (5 / "5" / 5.0) or not at all - whatever rulegen sorts or groups by must order them the same way in every run
     rg = json.loads(json.dumps(docs[0]))
@@ -208,6 +219,11 @@ def build_inputs(rng, sdir):
         specs.append({"name": "case%d" % i, "input": d,
                       "expectations": {"rules": {n: rng.choice(["PASS", "FAIL", "SKIP"]) for n in names1 if not n.endswith("pr0")}}})
     open(os.path.join(sdir, "t", "tests", "r1_tests.json"), "w").write(json.dumps(specs))
+    os.makedirs(os.path.join(sdir, "tm", "tests"), exist_ok=True)
+    shutil.copy(os.path.join(sdir, "r1.guard"), os.path.join(sdir, "tm", "r1.guard"))
+    for j, tag in enumerate(["a", "b", "c", "d", "e"]):
+        one = [dict(sp, name="%s_%s" % (tag, sp["name"])) for sp in specs[:2]]
+        open(os.path.join(sdir, "tm", "tests", "r1_%s_tests.json" % tag), "w").write(json.dumps(one))
     # a tests file whose expectations are all misspelt, each differently: whichever the command reports, it must be the same one every time
     os.makedirs(os.path.join(sdir, "tbad"), exist_ok=True)
     shutil.copy(os.path.join(sdir, "r1.guard"), os.path.join(sdir, "tbad", "r1.guard"))
@@ -235,7 +251,7 @@ def shard(ctx):
                     cwd = sdir if k % 2 == 0 else alt_cwd
                     # the files are "saved again" in another order before every run: same names, same bytes, other modification times
                     # (no mode here asks for --last-modified ordering)
-                    for sub in ("d", "tf", "t", os.path.join("t", "tests")):
+                    for sub in ("d", "plain", "tf", "t", os.path.join("t", "tests"), "tm", os.path.join("tm", "tests")):
                         names_ = sorted(x for x in os.listdir(os.path.join(sdir, sub)) if os.path.isfile(os.path.join(sdir, sub, x)))
                         order_ = names_ if k % 3 == 0 else (names_[::-1] if k % 3 == 1 else names_[1:] + names_[:1])
                         for pos_, x in enumerate(order_):
@@ -425,7 +441,7 @@ def main(tier, seed):
     core.build(need_cli=True)
     res = core.run_shards(shard, seed, tier, "C05")
     mo = res.extra.get("modes_with_output", set())
-    floor = {"cases": (res.cases, 500), "modes_with_nonempty_output": (len([m for m in mo if not m.endswith(":EMPTY")]), 34),
+    floor = {"cases": (res.cases, 500), "modes_with_nonempty_output": (len([m for m in mo if not m.endswith(":EMPTY")]), 39),
              "in_process_repetitions": (res.counts["in_process_repetitions"], 200),
              "earlier_file_units_compared": (res.counts["earlier_file_units_compared"], 150)}
     return core.finish("C05", tier, seed, res, t0,
